@@ -1,4 +1,5 @@
 import GBProofs.Harmonics
+import GBProofs.SphericalNorm
 
 /-!
 # C10 — the Cartesian-to-spherical matrix is the set of real regular solid harmonics
